@@ -168,6 +168,39 @@ impl EventData {
         get_scheduler().schedule(co);
     }
 
+    /// used by `subscribe` right after the coroutine is stored, `deadline` is what
+    /// `add_io_timer` returned. If the subscribing thread was held up for longer than
+    /// the timeout, the timer may have fired already and found no coroutine to wake,
+    /// do the timeout ourselves then. Return true if the deadline has passed, the
+    /// caller must not touch the io any more in that case
+    #[cfg(feature = "io_timeout")]
+    #[inline]
+    pub fn timed_out_while_arming(&self, deadline: Option<u64>) -> bool {
+        match deadline {
+            Some(t) if crate::timeout_list::now() >= t => {}
+            _ => return false,
+        }
+
+        let mut co = match self.co.take() {
+            Some(co) => co,
+            None => return true, // it's already take by selector
+        };
+
+        // the timer entry may still be pending, remove it as `fast_schedule` does
+        self.timer.borrow_mut().take().map(|h| {
+            unsafe {
+                h.with_mut_data(|value| value.data.event_data = std::ptr::null_mut());
+            }
+            h.remove()
+        });
+
+        set_co_para(&mut co, io::Error::new(io::ErrorKind::TimedOut, "timeout"));
+
+        // resume the coroutine with timeout error
+        run_coroutine(co);
+        true
+    }
+
     /// used by local re-schedule that in `subscribe`
     #[inline]
     pub fn fast_schedule(&self) {
